@@ -86,7 +86,38 @@ def observe(case):
 
 
 def observe_many(cases):
-    return [observe(case) for case in cases]
+    return [observe(case) if case.get("op") != "selections" else observe_selections(case) for case in cases]
+
+
+def observe_selections(case):
+    """ the shipped rules asked for several times in one (fresh) process state: all of them first, then the selections of
+        the case (lists of positions in the rule file; empty = all) """
+    import types
+    from ..common import import_repo
+    import_repo()
+    from antismash.detection import hmm_detection
+    event = {"id": case["id"], "op": "selections", "taxon": case["taxon"], "sels": [], "exc": ""}
+    hmm_detection._RULESETS.clear()     # pylint: disable=protected-access   (what a new process starts with)
+    try:
+        def ask(names):
+            options = types.SimpleNamespace(hmmdetection_strictness=case["strictness"], hmmdetection_limit_to_rules=list(names),
+                                            hmmdetection_limit_to_categories=[], taxon=case["taxon"],
+                                            hmmdetection_fungal_cutoff_multiplier=case["mult"][0],
+                                            hmmdetection_fungal_neighbourhood_multiplier=case["mult"][1])
+            ruleset = hmm_detection.get_ruleset(options)
+            return {"names": list(names), "rules": [{"name": rule.name, "cutoff": int(rule.cutoff), "nbhd": int(rule.neighbourhood)}
+                                                    for rule in ruleset.rules]}
+        full = ask([])
+        event["sels"].append(full)
+        every = [rule["name"] for rule in full["rules"]]
+        for positions in case["selections"]:
+            event["sels"].append(ask([every[pos % len(every)] for pos in positions]))
+    except Exception as err:  # pylint: disable=broad-except
+        event["exc"] = type(err).__name__ + ":" + str(err)[:60].replace('"', "'")
+        event["sels"] = []
+    finally:
+        hmm_detection._RULESETS.clear()     # pylint: disable=protected-access
+    return event
 
 
 def observe_pipeline_many(cases):
@@ -136,8 +167,19 @@ def run(ctx):
         orders = [order for order in [names[::-1]] if valid_order(ruleset, order)]
         ks = sorted(rng.sample(range(1, scene["L"]), 6))
         cases.append({"scene": scene, "rules": ruleset, "scale": rng.choice([1, 1000]), "ks": ks, "orders": orders})
+    # the shipped rule files: what a rule is does not depend on which other rules were asked for in the same process
+    selection_cases = []
+    for _ in range(16 if ctx.quick else 200):
+        selections = []
+        for _ in range(rng.choice([2, 3, 4])):
+            selections.append([] if rng.random() < 0.3 else sorted(rng.sample(range(0, 60), rng.choice([1, 2, 3, 5]))))
+        taxon = rng.choice(["fungi", "fungi", "bacteria"])
+        selection_cases.append({"op": "selections", "taxon": taxon, "strictness": rng.choice(["strict", "relaxed", "loose"]),
+                                "mult": rng.choice([[1.0, 1.5], [1.5, 0.5], [2.0, 2.0]]), "selections": selections})
     for idx, case in enumerate(cases):
         case["id"] = idx
+    for idx, case in enumerate(selection_cases):
+        case["id"] = 10 ** 8 + idx
     samples = {}
     runs = sum(1 + len(case["ks"]) + len(case["orders"]) for case in cases)
 
@@ -154,6 +196,16 @@ def run(ctx):
     ctx.evaluations = runs
     ctx.notes["pipeline_runs"] = runs
     run_batches(ctx, "Detect_Trace", cases, observe_many, describe, batch=8000, min_per_shard=100)
+
+    def describe_selections(case, event):
+        return {"op": "selections", "input": {k: case[k] for k in ("op", "taxon", "strictness", "mult", "selections")}, "sampled": True,
+                "call": f"props.c07.observe_selections({ {k: case[k] for k in ('taxon', 'strictness', 'mult', 'selections')} })  # "
+                        "hmm_detection.get_ruleset(options) for all rules, then limited to the rules at these positions of the rule file",
+                "features": ["taxon_" + case["taxon"]],
+                "observed": {"exc": event["exc"], "rules_per_selection": [len(sel["rules"]) for sel in event["sels"]]}}
+
+    run_batches(ctx, "Detect_Trace", selection_cases, observe_many, describe_selections, batch=8000, min_per_shard=4)
+    ctx.notes["ruleset_selections"] = len(selection_cases)
     # end-to-end conformance of the base runs: the composed stage relations (Detect, Candidates, RecordSM regions)
     pipeline_cases = [dict(case, id=case["id"] + len(cases)) for case in cases if case["scale"] == 1]
 
@@ -181,6 +233,10 @@ def replay(ctx, record):
     if record["op"] in ("pipeline", "detect", "candidates", "regions") and "ks" not in case:
         event = observe_pipeline_many([case])[0]
         ctx.validate("Pipeline_Trace", [event], {0: {"op": record["op"], "input": record["input"]}})
+        ctx.failures = [f for f in ctx.failures if f["clause"] == record["clause"]]
+        return
+    if record["op"] == "selections":
+        ctx.validate("Detect_Trace", [observe_selections(case)], {0: {"op": "selections", "input": record["input"]}})
         ctx.failures = [f for f in ctx.failures if f["clause"] == record["clause"]]
         return
     event = observe(case)
